@@ -654,11 +654,17 @@ func ruleUnitZoom(w *World, r *Report) {
 	ke := kindsFor(w)
 	n := 0
 	for _, f := range w.ModFuncs {
-		if f.Blocks == nil || f.Synthetic != "" || w.IsCanary(f) {
+		if f.Blocks == nil || f.Synthetic != "" {
 			continue
 		}
+		can := w.IsCanary(f)
+		add := func(key, pos string, st Status, d string) {
+			r.Add(Obligation{Rule: "UNIT-ZOOM", Key: "UNIT-ZOOM / " + key, Pos: pos, Status: st, Detail: d, Canary: can})
+		}
 		for _, c := range callsTo(f, func(g *ssa.Function) bool { return funcIs(g, modPath+"/integrate", "NewUnitDividedSpatialID") }) {
-			n++
+			if !can {
+				n++
+			}
 			for ai, axis := range []string{"", "horizontal", "vertical"} {
 				if ai == 0 {
 					continue
@@ -671,13 +677,13 @@ func ruleUnitZoom(w *World, r *Report) {
 				}
 				sub, ok := resolve(c.Call.Args[ai]).(*ssa.BinOp)
 				if !ok || sub.Op != token.SUB {
-					r.add("UNIT-ZOOM", key, pos, Undecided, "the zoom difference is not of the form M - id.Zoom() ("+describeValue(c.Call.Args[ai])+")")
+					add(key, pos, Undecided, "the zoom difference is not of the form M - id.Zoom() ("+describeValue(c.Call.Args[ai])+")")
 					continue
 				}
 				m := resolve(sub.X)
 				// (b) a getter on one element
 				if gc, isCall := m.(*ssa.Call); isCall && calleeOf(gc) != nil && accessorField(calleeOf(gc)) != nil {
-					r.add("UNIT-ZOOM", key, pos, Violated, "the unit zoom is read from a single element ("+shortInstr(gc)+"): the per-axis maximum over all candidates is required (the finest ID on one axis need not be the finest on the other)")
+					add(key, pos, Violated, "the unit zoom is read from a single element ("+shortInstr(gc)+"): the per-axis maximum over all candidates is required (the finest ID on one axis need not be the finest on the other)")
 					continue
 				}
 				ph, isPhi := m.(*ssa.Phi)
@@ -692,7 +698,7 @@ func ruleUnitZoom(w *World, r *Report) {
 					}
 				}
 				if !isPhi {
-					r.add("UNIT-ZOOM", key, pos, Undecided, "the unit zoom "+describeValue(m)+" is not a loop-carried maximum the rule can read")
+					add(key, pos, Undecided, "the unit zoom "+describeValue(m)+" is not a loop-carried maximum the rule can read")
 					continue
 				}
 				var loop *sliceRange
@@ -742,17 +748,17 @@ func ruleUnitZoom(w *World, r *Report) {
 						}
 					}
 					if loop != nil {
-						r.add("UNIT-ZOOM", key, pos, Violated, "the ID is divided inside the loop that is still updating the maximum zoom: earlier IDs are divided at a coarser unit zoom than later ones, so the result depends on the order of the input")
+						add(key, pos, Violated, "the ID is divided inside the loop that is still updating the maximum zoom: earlier IDs are divided at a coarser unit zoom than later ones, so the result depends on the order of the input")
 						continue
 					}
 				}
 				if loop == nil {
-					r.add("UNIT-ZOOM", key, pos, Undecided, "the unit zoom is a merged value that is not carried by a range loop")
+					add(key, pos, Undecided, "the unit zoom is a merged value that is not carried by a range loop")
 					continue
 				}
 				// (a) division inside the loop that still updates the maximum
 				if loop.blocks()[c.Block()] {
-					r.add("UNIT-ZOOM", key, pos, Violated, "the ID is divided inside the loop that is still updating the maximum zoom: earlier IDs are divided at a coarser unit zoom than later ones, so the result depends on the order of the input")
+					add(key, pos, Violated, "the ID is divided inside the loop that is still updating the maximum zoom: earlier IDs are divided at a coarser unit zoom than later ones, so the result depends on the order of the input")
 					continue
 				}
 				// the accumulated quantity: a call of the matching getter on the loop element
@@ -778,13 +784,13 @@ func ruleUnitZoom(w *World, r *Report) {
 				}
 				if !found {
 					if any && runningMaxOfOtherAxis(f, loop, ph, ke, wantK) {
-						r.add("UNIT-ZOOM", key, pos, Violated, "the "+axis+" unit zoom is the running maximum of the other axis' zoom")
+						add(key, pos, Violated, "the "+axis+" unit zoom is the running maximum of the other axis' zoom")
 					} else {
-						r.add("UNIT-ZOOM", key, pos, Undecided, "the loop-carried value was not recognised as the running maximum of the "+axis+" zoom of every input")
+						add(key, pos, Undecided, "the loop-carried value was not recognised as the running maximum of the "+axis+" zoom of every input")
 					}
 					continue
 				}
-				r.add("UNIT-ZOOM", key, pos, Discharged, "M = running maximum of the "+axis+" zoom over the whole input list, complete before the first division")
+				add(key, pos, Discharged, "M = running maximum of the "+axis+" zoom over the whole input list, complete before the first division")
 			}
 		}
 	}
